@@ -345,4 +345,11 @@ theorem shape_dispatch :
     "l.inbound.handleLoginPluginResponse" ∈ initialDispatchCalls ∧
     "a.inbound.handleLoginPluginResponse" ∈ authDispatchCalls := by decide
 
+open Gate.Gen.C13 in
+/-- when the Forge relay takes over, the auth handler only drops the completion callback
+    (clearOnAllMessagesHandled); it does not clean the inbound up (which would drop outstanding consumers) -/
+theorem shape_relay_takeover :
+    "a.inbound.clearOnAllMessagesHandled" ∈ relayTakeoverCalls ∧ "a.inbound.cleanup" ∉ relayTakeoverCalls ∧
+    cleanupCalls = ["l.mu.Lock", "l.loginMessagesToSend.Clear", "l.mu.Unlock"] := by decide
+
 end Gate.C13.Props
